@@ -171,12 +171,24 @@ def to_txdbus(t, v):
     return v
 
 
+class Level(int):
+    """what applications put into variants: enum-like subclasses of int ..."""
+
+
+class Label(str):
+    """... and of str"""
+
+
 def to_variant(t, v):
     """a Python value whose *inferred* variant signature is exactly t (wrapper types)"""
     from txdbus import marshal as tm
     c = t[0]
     if c in tm.variantClassMap:
         return tm.variantClassMap[c](v)
+    if c == 'i' and v % 3 == 0:
+        return Level(v)
+    if c == 's' and len(v) % 2:
+        return Label(v)
     if c in 'bsdi':
         return v
     if c == 'a':
